@@ -5,6 +5,7 @@ import Heathcliff.Proofs.GenEval
 import Heathcliff.Proofs.GenRns2
 import Heathcliff.Proofs.GenRns3
 import Heathcliff.Proofs.GenEval2
+import Heathcliff.Proofs.GenEval3
 namespace HC.C05
 /-- the level walk of `mod_switch_to` / `rescale_to` refuses upward targets -/
 theorem switch_up_refused {cur tgt : Nat} (h : cur < tgt) : switchSteps cur tgt = .error .refused := by
@@ -140,5 +141,29 @@ theorem gen_mod_switch_drop_refuses_unfit : type_of% @HC.gl_mod_switch_drop_refu
 /-- non-vacuity: a CKKS ciphertext on level 2 walks 2 -> 1 -> 0; a BFV "rescale" to the level it is on is refused -/
 example : HC.GenE.rescale_to true 2 0 .ckks = .ok [1, 0] := by rw [HC.gl_rescale_to_eq _ _ _ _ (by norm_num)]; rfl
 example : HC.GenE.rescale_to true 2 2 .bfv = .error .refused := by rw [HC.gl_rescale_to_eq _ _ _ _ (by norm_num)]; rfl
+
+/-! ### NTT-form plaintexts down the chain (translator phase 4l; `Proofs/GenEval3.lean`) -/
+
+/-- TRANSLATOR TIE: `Evaluator::mod_switch_drop_to_next_plain_internal` (regenerated from src/evaluator.rs on every run) = `plainDropNextWords`:
+    a coefficient-form plaintext, the last level and a scale that does not fit the NEXT level are refused, otherwise the buffer has
+    degree × (prime count of the next level) words -/
+theorem gen_plain_drop_next_eq : type_of% @HC.gq_plain_drop_next_eq := @HC.gq_plain_drop_next_eq
+/-- TRANSLATOR TIE: `Evaluator::mod_switch_plain_to_inplace` = `plainSwitchToPlan` (coefficient form and upward targets refused, same
+    level = identity, otherwise the walk cur − 1, …, tgt of valid objects) -/
+theorem gen_mod_switch_plain_to_eq : type_of% @HC.gq_mod_switch_plain_to_eq := @HC.gq_mod_switch_plain_to_eq
+/-- on EVERY chain whose prime counts do not grow downwards (short BFV / BGV chains included: no relation between the chain index and the
+    prime count is assumed) a walk of j levels truncates the buffer to the j-th lower level's components -/
+theorem plain_walk_data : type_of% @HC.gq_plain_walk_data := @HC.gq_plain_walk_data
+/-- END TO END: whenever the plan succeeds, the walk ends exactly on the target after cur − tgt steps and the data is the source truncated
+    to the target level's RNS components (= the same polynomial modulo the remaining primes) -/
+theorem plain_switch_to_data : type_of% @HC.gq_plain_switch_to_data := @HC.gq_plain_switch_to_data
+/-- non-vacuity: a SHORT chain (levels 2, 1, 0 hold 4, 3, 2 primes: chain index ≠ prime count − 1), N = 2; the generated walk from level 2 to
+    level 0 visits 1, 0 and leaves the first 2·2 words; an upward request, a coefficient-form plaintext and the last level are refused -/
+example : HC.GenE.mod_switch_plain_to_inplace true true 2 0 = .ok [1, 0] := by rw [HC.gq_mod_switch_plain_to_eq _ _ _ _ (by norm_num)]; rfl
+example : HC.plainWalkData (fun i => i + 2) 2 [1, 2, 3, 4, 5, 6, 7, 8] [1, 0] = [1, 2, 3, 4] := by decide
+example : HC.GenE.mod_switch_plain_to_inplace true true 0 1 = .error .refused := by rw [HC.gq_mod_switch_plain_to_eq _ _ _ _ (by norm_num)]; rfl
+example : HC.GenE.mod_switch_plain_to_inplace true false 2 0 = .error .refused := by rw [HC.gq_mod_switch_plain_to_eq _ _ _ _ (by norm_num)]; rfl
+example : HC.GenE.mod_switch_drop_to_next_plain_internal true false true 2 3 = .error .refused := by rw [HC.gq_plain_drop_next_eq]; rfl
+example : HC.GenE.mod_switch_drop_to_next_plain_internal true true true 2 3 = .ok 6 := by rw [HC.gq_plain_drop_next_eq]; rfl
 
 end HC.C05
